@@ -132,7 +132,11 @@ type Spec struct {
 	// item "L:<abstract result>" after the callee returns normally.
 	RetLabel func(callee *ssa.Function) string
 	// MayPanic marks opaque calls that can panic (forks an unwinding path).
-	MayPanic  func(site ssa.CallInstruction) bool
+	MayPanic func(site ssa.CallInstruction) bool
+	// SeqFacts: reason about one goroutine running alone (e.g. the same entry point called twice in
+	// a row): path facts about Helios fields then survive calls that cannot run Helios code (lock
+	// operations, the standard library), and are only dropped by opaque calls that may.
+	SeqFacts  bool
 	MaxVisits int
 	MaxTraces int
 
@@ -693,7 +697,7 @@ func (s *Spec) doCall(fr *Frame, x *ssa.Call, st *walkState, cont func(*walkStat
 		return true
 	}
 	s.note(fr, x, st)
-	if !pureCall(name) {
+	if !pureCall(name) && s.mayWriteHelios(x) {
 		st.facts = map[string]factVal{}
 	}
 	if s.MayPanic != nil && s.MayPanic(x) {
@@ -764,7 +768,7 @@ func (s *Spec) runDefers(fr *Frame, st *walkState, idx int, panicking bool, done
 	if l := s.eventLabel(d, fr, "run:"); l != "" {
 		st.items = append(st.items, Item{Label: l, Instr: d, Frame: fr})
 	}
-	if !pureCall(CalleeName(d)) {
+	if !pureCall(CalleeName(d)) && s.mayWriteHelios(d) {
 		st.facts = map[string]factVal{}
 	}
 	s.runDefers(fr, st, idx-1, panicking, done, emit)
@@ -927,6 +931,23 @@ func (s *Spec) storeFact(fr *Frame, st *ssa.Store, w *walkState) {
 		s.P.qual = false
 		w.facts[loc] = factVal{eq: true, k: strings.TrimPrefix(kd, "k:")}
 	}
+}
+
+// mayWriteHelios: can this opaque call run Helios code (and so change Helios fields)?  Without
+// SeqFacts every call may, because other goroutines run meanwhile.
+func (s *Spec) mayWriteHelios(site ssa.CallInstruction) bool {
+	if !s.SeqFacts || s.P == nil {
+		return true
+	}
+	if f := StaticFn(site); f != nil {
+		return s.P.IsHelios(f)
+	}
+	for _, f := range s.P.Callees(site) {
+		if s.P.IsHelios(f) {
+			return true
+		}
+	}
+	return false
 }
 
 // pureCall: callees that cannot write Helios-visible memory (so path facts survive them).
